@@ -132,7 +132,9 @@ func TestRaceC12(t *testing.T) {
 	for it := 0; it < n; it++ {
 		sv := &svc{ver: map[string]int{"d": 1}}
 		st, err := setec.NewStore(context.Background(), setec.StoreConfig{Client: sv, Secrets: []string{"d"}, AllowLookup: true,
-			Cache: setec.NewMemCache(""), PollInterval: time.Millisecond, ExpiryAge: time.Nanosecond, Logf: func(string, ...any) {}})
+			// the start-up cache holds undeclared secrets nobody has a handle for yet (they are candidates for expiry)
+			Cache:        setec.NewMemCache(`{"c0":{"secret":{"Value":"YzA=","Version":1},"lastAccess":"5"},"c1":{"secret":{"Value":"YzE=","Version":1},"lastAccess":"5"}}`),
+			PollInterval: time.Millisecond, ExpiryAge: time.Nanosecond, Logf: func(string, ...any) {}})
 		if err != nil {
 			t.Fatal(err)
 		}
@@ -163,6 +165,12 @@ func TestRaceC12(t *testing.T) {
 			}
 		})
 		run(func() { st.Secret("u0").Get(); st.Metrics() })
+		run(func() {
+			// handles for the cached names are taken and used while polls (and their expiry sweeps) run
+			for i := 0; i < 6; i++ {
+				st.Secret(fmt.Sprint("c", i%2)).Get()
+			}
+		})
 		run(func() { time.Sleep(time.Duration(it%3) * time.Millisecond); st.Close(); h.Get() })
 		wg.Wait()
 		st.Close()
